@@ -694,7 +694,6 @@ func (e *FnEnc) encodeInstr(in ssa.Instruction) {
 	case *ssa.Go:
 		e.note(e.key + ": `go` statement: spawned goroutine body not verified, spawn is a no-op")
 	case *ssa.Range:
-		e.setVal(x, Val{L: []string{e.val(x.X).L[0]}})
 		e.vals[x] = Val{T: x.X.Type(), L: e.val(x.X).L}
 	case *ssa.Next:
 		e.encNext(x)
@@ -1442,14 +1441,20 @@ func (e *FnEnc) frameObligations() {
 			}
 			goal = seq(cur, quoteSym(k))
 		} else {
-			exc := "false"
-			if a := allowed[k]; a != nil {
-				exc = a("r")
+			if strings.HasPrefix(k, "E/") {
+				exc := "false"
+				if a := allowed[k]; a != nil {
+					exc = a("r", "k")
+				}
+				goal = fmt.Sprintf("(forall ((r Int) (k %s)) (=> (and (select %s r) (not %s)) (= (select (select %s r) k) (select (select %s r) k))))", e.sorter.idxSort(), alloc0, exc, cur, quoteSym(k))
+			} else {
+				exc := "false"
+				if a := allowed[k]; a != nil {
+					exc = a("r", "")
+				}
+				goal = fmt.Sprintf("(forall ((r Int)) (=> (and (select %s r) (not %s)) (= (select %s r) (select %s r))))", alloc0, exc, cur, quoteSym(k))
 			}
-			if strings.HasPrefix(k, "E/") && e.sorter.mode == ModeBV {
-				_ = srt
-			}
-			goal = fmt.Sprintf("(forall ((r Int)) (=> (and (select %s r) (not %s)) (= (select %s r) (select %s r))))", alloc0, exc, cur, quoteSym(k))
+			_ = srt
 		}
 		e.oblige("frame", k, goal, token.NoPos)
 	}
